@@ -413,6 +413,8 @@ def run(tier):
     from .. import bufcopy
     bufcopy.check(chk)
     chk.floor('interpreters', len(t0.INTERPRETERS), 7)
+    from .. import t0mandatory as _t0m
+    _t0m.check(chk, ('skey_decoder', 'pkey_decoder'))
     from .. import lints as _lints_ir
     _lints_ir.ignored_result_regression(chk, ['src/codec/', 'src/x509/', 'src/ssl/'])
     return chk.finish()
